@@ -152,7 +152,67 @@ pub fn receiver_units(quick: bool) -> Vec<Unit> {
     units
 }
 
+/// A packet of 130 fragments (two 64-fragment word boundaries) handed to a lone real receiver in ascending order with two fragments held
+/// back and delivered at the end (both orders), and a second copy of one fragment inserted right behind its first copy, one fragment
+/// later, or just before the held ones: every choice of the three from the fragments around the word boundaries and a few others.
+fn wide_case(last_len: usize, h1: usize, h2: usize, dup: usize, place: usize, swap: bool) -> (String, Option<Violation>, u64) {
+    let n = 130usize;
+    let size = (n - 1) * FRAG + last_len;
+    let p_main = payload(1, 3, 0, size);
+    let mut order: Vec<usize> = (0..n).filter(|&k| k != h1 && k != h2).collect();
+    let pos = order.iter().position(|&k| k == dup).unwrap();
+    let at = match place { 0 => pos + 1, 1 => (pos + 2).min(order.len()), _ => order.len() };
+    order.insert(at, dup);
+    if swap { order.push(h2); order.push(h1); } else { order.push(h1); order.push(h2); }
+    let r = guarded(|| {
+        set_time_ms(0); set_fuel(4_000_000);
+        let frags: Vec<Datagram> = (0..n).map(|k| frag(0x000F_FFFE, 3, k, n, &p_main)).collect();
+        let mut hc = receiver(1_000_000);
+        let mut out: Vec<Box<[u8]>> = Vec::new();
+        for (i, &k) in order.iter().enumerate() {
+            hc.handle_data_frame(DataFrame { sequence_id: 500 + i as u32, nonce: false, datagrams: vec![frags[k].clone()] });
+            let mut ps = PS(vec![]); hc.receive(&mut ps); out.extend(ps.0);
+        }
+        set_fuel(u64::MAX);
+        out
+    });
+    set_fuel(u64::MAX);
+    let case = format!("case:wide:{}:{}:{}:{}:{}:{}", last_len, h1, h2, dup, place, swap as u8);
+    match r {
+        Err(p) => (case, Some(viol("C04.aborted-by-panic", format!("C04.aborted-by-panic:{}", p.rsplit(" @ ").next().unwrap_or("")), format!("the receiver panicked while reassembling a 130-fragment packet: {}", p))), 0xDEAD),
+        Ok(out) => {
+            let h = fnv(out.len() as u64, out.first().map_or(0, |p| p.len() as u64));
+            if out.len() != 1 || out[0][..] != p_main[..] {
+                let diff = out.first().map(|p| p.iter().zip(p_main.iter()).position(|(a, b)| a != b));
+                (case, Some(viol("C04.reassembly", "C04.reassembly:wide-packet".into(), format!("a packet of 130 fragments ({} bytes) handed over in ascending order with fragments {} and {} held back to the end and a second copy of fragment {} (place {}) was delivered as {:?} (first differing byte {:?})", size, h1, h2, dup, place, out.iter().map(|p| p.len()).collect::<Vec<_>>(), diff))), h)
+            } else { (case, None, h) }
+        }
+    }
+}
+
+pub fn wide_units(quick: bool) -> Vec<Unit> {
+    let mut units: Vec<Unit> = Vec::new();
+    let marks: Vec<usize> = if quick { vec![0, 10, 63, 64, 65, 127, 128, 129] } else { vec![0, 1, 10, 62, 63, 64, 65, 66, 100, 126, 127, 128, 129] };
+    for last_len in [700usize, FRAG] {
+        for (ui, &h1) in marks.iter().enumerate() {
+            let marks = marks.clone();
+            units.push(Box::new(move |acc: &mut Acc| {
+                for &h2 in marks.iter().filter(|&&m| m > h1) { for &dup in marks.iter() { for place in 0..3usize { for swap in [false, true] {
+                    if dup == h1 || dup == h2 { continue; }
+                    let (case, v, h) = wide_case(last_len, h1, h2, dup, place, swap);
+                    acc.evals += 1; acc.transitions += 131; acc.outcomes.insert(h ^ (ui as u64) << 32);
+                    if h == 0xDEAD { acc.panics += 1; }
+                    if let Some(v) = v { acc.violation(case, v); }
+                } } } }
+                if ui == 2 { acc.sample(format!("receiver: 130 fragments (last {} B), fragment {} and each later marked fragment held back, each other marked fragment duplicated at 3 places", last_len, h1)); }
+            }));
+        }
+    }
+    units
+}
+
 pub fn replay_case(case: &str) -> Vec<Violation> {
+    if let Some(f) = case.strip_prefix("case:wide:") { let v: Vec<usize> = f.split(':').filter_map(|x| x.parse().ok()).collect(); if v.len() == 6 { return wide_case(v[0], v[1], v[2], v[3], v[4], v[5] == 1).1.into_iter().collect(); } }
     let mut acc = Acc::default();
     if let Some(spec) = case.strip_prefix("case:frag:") {
         // rebuild the items: genuine fragments are recomputed from the payload generator, hostile ones carry junk
@@ -179,6 +239,8 @@ pub fn build(quick: bool) -> PropRun {
     let mut sizes: Vec<usize> = vec![0, 1, 63, 64, 255, 256];
     for k in 1..=kmax { sizes.extend([k * FRAG - 1, k * FRAG, k * FRAG + 1]); }
     sizes.push(100_000);
+    // 64 and 128 fragments exactly, one byte less and more: per-fragment bookkeeping is kept in 64-bit words on both sides
+    for k in [64usize, 128] { if k > kmax { sizes.extend([k * FRAG - 1, k * FRAG, k * FRAG + 1]); } }
     for (bi, &bw) in [2_000_000u32, 20_000, 3000].iter().enumerate() {
         for &size in sizes.iter() {
             if quick && bi > 0 && !(size % FRAG <= 1 || size % FRAG == FRAG - 1) { continue; }
@@ -218,7 +280,7 @@ pub fn build(quick: bool) -> PropRun {
         scs.push(lw_scenario(LwSpec { tag: "C04.max-packet".into(), cfg, script: si, env, d: 0, oracles, probe_round: 0 }));
     }
     for mp in if quick { vec![4444usize] } else { vec![1, 1448, 4444, 100_000] } { scs.push(crate::props_ew::c04_api_scenario(mp)); }
-    PropRun { level: "model_checking", scenarios: scs, units: receiver_units(quick), replay_case: Some(replay_case), summary: Summary {
+    PropRun { level: "model_checking", scenarios: scs, units: { let mut u = receiver_units(quick); u.extend(wide_units(quick)); u }, replay_case: Some(replay_case), summary: Summary {
         rule: "(a) deviation-bounded link-world exploration with one packet of every boundary size (fragment multiples +-1), three flush budgets, frame fates; wire fragments and delivered bytes compared with the submitted payload, no frame above 1472 bytes; (b) a lone real receiver fed with all arrival orders x duplication patterns x interleavings with a neighbour packet, and with every disagreeing fragment at every position after the first genuine one; (c) at the public API: packets of 0, 1, the fragment boundaries, max_packet_size - 1 and exactly max_packet_size bytes through Client::send and RemoteClient::send in both directions, Reliable and Unreliable, loss-free: each once, byte-identical, in order, no datagram above 1472 bytes".into(),
         bounds: json!({"sizes": format!("0,1,63,64,255,256, k*1448-1..k*1448+1 for k=1..{}, 100000{}", kmax, if quick { "" } else { ", MAX_PACKET_SIZE" }), "budgets_Bps": [2_000_000, 20_000, 3000], "receiver_fragments": if quick { "2..4" } else { "2..6" }, "receiver_items_max": if quick { 7 } else { 8 }}),
         assumptions: vec!["payload bytes come from a fixed generator; the neighbour packet is Unreliable on the same channel, so the older packet may legitimately be skipped once the newer one was delivered".into(), "build profile: release with debug-assertions and overflow-checks on".into()],
